@@ -624,9 +624,32 @@ def kill_runs(ctx, drv, bl, workers=16):
         except Exception:
             rec["check"] = "crash"
         others = {e["name"]: e["sha"] for e in drv.pi(c.base) if e["name"] in ("boss.admin", "bob.user")}
+        # life goes on after the crash: the next change of the same user - under the other default parameter set, so that the
+        # record has another length than whatever the killed process left in the work area - must yield a whole record with
+        # exactly the auxiliary data the user had, nothing of the interrupted write
+        second = None
+        mine = [e for e in drv.pi(c.base) if e["name"] in (c.user + ".user", c.user + ".admin") and e.get("parsed")]
+        if len(mine) == 1 and rec.get("check") is True:
+            cfg2 = os.path.join(c.root, "store2.yaml")
+            open(cfg2, "w").write(open(os.path.join(c.root, "store.yaml")).read().replace("default: 1", "default: 2"))
+            open(os.path.join(c.root, "pw"), "wb").write(PWS["third"])
+            u = subprocess.run([drv.drv, "-cfg", cfg2, "-op", "update", "-user", c.user, "-pwfile", os.path.join(c.root, "pw")],
+                               stdout=subprocess.PIPE, text=True)
+            try:
+                okupd = json.loads(u.stdout.strip().splitlines()[-1])["ok"]
+            except Exception:
+                okupd = None
+            after = [e for e in drv.pi(c.base) if e["name"] == mine[0]["name"]]
+            a3 = subprocess.run([drv.drv, "-cfg", cfg2, "-op", "auth", "-user", c.user, "-pwfile", os.path.join(c.root, "pw")], stdout=subprocess.PIPE, text=True)
+            try:
+                auth3 = json.loads(a3.stdout.strip().splitlines()[-1])["ok"]
+            except Exception:
+                auth3 = None
+            second = {"updated": okupd, "before": {k: mine[0].get(k) for k in ("auxsha", "auxlen", "pw", "param")},
+                      "after": {k: after[0].get(k) for k in ("auxsha", "auxlen", "pw", "param", "parsed")} if after else None, "auth": auth3}
         c.cleanup()
         lines = [dict(ev="reset", **c.ctx())] + evs + [{"ev": "killview", "F": view["F"], "G": view["G"]}]
-        return ("ok", c, k, {"lines": lines, "view": view, "recovery": rec, "others": others, "call": call["name"]})
+        return ("ok", c, k, {"lines": lines, "view": view, "recovery": rec, "others": others, "call": call["name"], "second": second})
 
     results = []
     with concurrent.futures.ThreadPoolExecutor(max_workers=workers) as ex:
@@ -651,6 +674,15 @@ def kill_runs(ctx, drv, bl, workers=16):
             key, d = "recovery:check", "store no longer passes the consistency check after kill: %s" % rec
         elif not c.empty_dir and len(info["others"]) != 2:
             key, d = "recovery:other-users", "other users' files changed: %s" % info["others"]
+        sec = info.get("second")
+        if not key and sec and sec["updated"] is True:
+            a, b0 = sec["after"], sec["before"]
+            # (the independent projection names the password where it knows the parameter set's figures; else the login decides)
+            if not a or not a["parsed"] or a["pw"] not in ("third", "") or a["param"] != 2 or sec["auth"] is not True:
+                key, d = "after-crash:next-update-not-whole", "the update after the crash reported success, the record is %s" % a
+            elif a["auxsha"] != b0["auxsha"] or a["auxlen"] != b0["auxlen"]:
+                key, d = "after-crash:next-update-mixed-record", ("the update after the crash left %d bytes of auxiliary data (had %d): the record is "
+                                                                  "mixed with what the killed process left behind" % (a["auxlen"], b0["auxlen"]))
         if key:
             ctx.violation("C08", "%s:%s:before-%s" % (key, c.name, info["call"]), d)
         ctx.sample({"kill": c.name, "before_call": info["call"], "k": k, "real_view": v, "recovery": rec}) if k == 3 else None
@@ -775,6 +807,60 @@ def reader_runs(ctx, drv, bl, workers=8):
         if key:
             ctx.violation("C08", "%s:%s:before-%s" % (key, c.name, callname), d)
     return n, len(jobs)
+
+
+def slow_reader_runs(ctx, drv, workers=8):
+    """The dual of reader_runs: a READER process (one login with the right password) is stopped for 500 ms on entry to each of its
+    system calls on the user's file, and meanwhile a writer process re-hashes the very same password under the other parameter
+    set (a hash upgrade: the file is replaced by one rename).  Whatever the reader had seen before, its login must succeed: it
+    reads either the whole old record or the whole new one, never a header of one and a digest of the other."""
+    c = Case("slow-reader", "auth", had="user", aux=b"totp: QUJD\n", pw="old")
+    r0 = drv.run(c, "slowreader-base")
+    if not r0["parsed"] or r0["res"] is None or not r0["res"].get("ok"):
+        ctx.notes.append("slow-reader baseline unusable")
+        return 0, 0
+    calls = [(x["name"], x["ordinal"]) for x in r0["parsed"]["region"]
+             if x["name"] in ("openat", "newfstatat", "statx", "read", "pread64") and "alice." in x.get("raw", x.get("args", ""))]
+    c.cleanup()
+
+    def one(job):
+        k, (name, ordinal) = job
+        cc = c.clone()
+        cc.materialise(os.path.join(drv.work, "slowreader-%d" % k))
+        cfg2 = os.path.join(cc.root, "store2.yaml")
+        open(cfg2, "w").write(open(os.path.join(cc.root, "store.yaml")).read().replace("default: 1", "default: 2"))
+        tr = os.path.join(cc.root, "strace.txt")
+        cmd = ["strace", "-f", "-o", tr, "-e", "trace=" + name, "-e", "inject=%s:delay_enter=500000:when=%d" % (name, ordinal)] + cc.argv(drv.drv)
+        rd = subprocess.Popen(cmd, stdout=subprocess.PIPE, stderr=subprocess.PIPE)
+        import time as _t
+        _t.sleep(0.12)
+        w = subprocess.run([drv.drv, "-cfg", cfg2, "-op", "update", "-user", cc.user, "-pwfile", os.path.join(cc.root, "pw")], stdout=subprocess.PIPE, text=True)
+        early = rd.poll() is not None          # the reader was already through: nothing was overlapped
+        out, _ = rd.communicate(timeout=30)
+        try:
+            ok = json.loads(out.decode().strip().splitlines()[-1])
+        except Exception:
+            ok = None
+        try:
+            wrote = json.loads(w.stdout.strip().splitlines()[-1])["ok"]
+        except Exception:
+            wrote = None
+        cc.cleanup()
+        return k, name, ordinal, ok, wrote, early
+
+    with concurrent.futures.ThreadPoolExecutor(max_workers=workers) as ex:
+        results = list(ex.map(one, enumerate(calls)))
+    n = 0
+    for k, name, ordinal, ok, wrote, early in results:
+        if ok is None or wrote is not True or early:
+            ctx.notes.append("slow-reader run %d discarded (reader result %s, writer %s, early %s)" % (k, ok, wrote, early))
+            continue
+        n += 1
+        if ok.get("ok") is not True:
+            ctx.violation("C08", "reader:mixed-record-evaluated:held-before-%s" % name,
+                          "a login with the right password, stopped before its %s #%d on the user's file while another process re-hashed the same "
+                          "password under the other parameter set, was refused: %s" % (name, ordinal, ok))
+    return n, len(calls)
 
 
 ERRNOS = ("ENOSPC", "EIO", "EACCES", "EMFILE")
